@@ -293,15 +293,12 @@ class IrregularlyBin(Factory, Container):
 
     @inheritdoc(Container)
     def __iadd__(self, other):
-        if isinstance(other, IrregularlyBin):
-            if self.thresholds != other.thresholds:
-                raise ContainerException("cannot add IrregularlyBin because cut thresholds differ")
-            self.entries += other.entries
-            for (k1, v1), (k2, v2) in zip(self.bins, other.bins):
-                v1 += v2  # noqa: PLW2901
-            self.nanflow += other.nanflow
-            return self
-        raise ContainerException(f"cannot add {self.name} and {other.name}")
+        # merge with + first: it raises, leaving both operands untouched, if anything is incompatible
+        both = self + other
+        self.entries = both.entries
+        self.bins = both.bins
+        self.nanflow = both.nanflow
+        return self
 
     @inheritdoc(Container)
     def __mul__(self, factor):
